@@ -10,7 +10,7 @@ import ast
 import builtins
 
 from ..core.flow import call_name, calls_in, enclosing_try, handler_catches_exception
-from ..core.loader import AnalysisError, short, own_nodes, norm
+from ..core.loader import AnalysisError, short, own_nodes, norm, canon, function_locals
 from ..core.report import where
 
 TECHNIQUE = ("interprocedural may-escape summaries over lexical try/except structure; writer/reader key agreement on "
@@ -353,7 +353,100 @@ def rule_e(ctx, out):
         raise AnalysisError(f"only {n} while loops found in reachable code")
 
 
+CONTAINING_HANDLERS = [("gasol_asm", "optimize_asm_block_asm_format"), ("gasol_asm", "compare_asm_block_asm_format"), ("gasol_asm", "search_optimal"),
+                       ("greedy.block_generation", "greedy_from_json"), ("greedy.block_generation", "greedy_standalone")]
+
+
+def _trivial_setter(ctx, name):
+    """every project method of that name only stores its parameters in attributes"""
+    cands = [g for g in ctx.p.functions.values() if g.name == name and g.cls is not None]
+    return bool(cands) and all(all(isinstance(st, ast.Assign) and all(isinstance(t, ast.Attribute) for t in st.targets) and isinstance(st.value, ast.Name)
+                                   or (isinstance(st, ast.Expr) and isinstance(st.value, ast.Constant)) for st in g.node.body) for g in cands)
+
+
+def _total_expr(e, ctx, exc_name):
+    """an expression that cannot raise whatever the caught exception looks like"""
+    if isinstance(e, (ast.Constant, ast.Name)):
+        return True
+    if isinstance(e, (ast.Tuple, ast.List, ast.Set)):
+        return all(_total_expr(x, ctx, exc_name) for x in e.elts)
+    if isinstance(e, ast.Dict):
+        return all(k is None or _total_expr(k, ctx, exc_name) for k in e.keys) and all(_total_expr(v, ctx, exc_name) for v in e.values)
+    if isinstance(e, ast.JoinedStr):
+        return all(isinstance(v, ast.Constant) or (isinstance(v, ast.FormattedValue) and _total_expr(v.value, ctx, exc_name) and v.format_spec is None) for v in e.values)
+    if isinstance(e, ast.Call):
+        fn = call_name(e)
+        if isinstance(e.func, ast.Name) and fn in ("str", "repr", "print", "type", "id") and all(_total_expr(a, ctx, exc_name) for a in e.args):
+            return True
+        if isinstance(e.func, ast.Attribute) and fn in ("print_exc", "format_exc", "getrusage") and not e.keywords:
+            return True
+        if isinstance(e.func, ast.Attribute) and isinstance(e.func.value, ast.Name) and e.func.value.id != exc_name and _trivial_setter(ctx, fn) \
+                and all(isinstance(a, (ast.Name, ast.Constant)) for a in e.args):
+            return True
+        return False
+    if isinstance(e, ast.BinOp) and isinstance(e.op, ast.Add):
+        # string concatenation of literals and str(...) only
+        def strish(x):
+            return (isinstance(x, ast.Constant) and isinstance(x.value, str)) or (isinstance(x, ast.Call) and isinstance(x.func, ast.Name) and x.func.id in ("str", "repr")
+                                                                                  and all(_total_expr(a, ctx, exc_name) for a in x.args)) \
+                or isinstance(x, ast.JoinedStr) or (isinstance(x, ast.BinOp) and isinstance(x.op, ast.Add) and strish(x.left) and strish(x.right))
+        return strish(e.left) and strish(e.right)
+    if isinstance(e, ast.Attribute):
+        return isinstance(e.value, ast.Name) and e.value.id != exc_name and not isinstance(e.ctx, ast.Load) or (isinstance(e.value, ast.Name) and e.value.id == "resource")
+    return False
+
+
+def rule_f(ctx, out):
+    """The handlers that contain a failure to its block must not fail themselves: an exception raised inside `except Exception as e:`
+    escapes the containment and costs the whole run (the output is written after the last block).  Every statement of these handlers
+    is an assignment / return / call built from expressions that cannot raise, whatever the caught exception carries (str(e) is
+    total; e.args[0], ', '.join(e.args), e.message are not)."""
+    n = 0
+    for modname, fname in CONTAINING_HANDLERS:
+        f = ctx.p.functions.get(f"{modname}.{fname}")
+        if f is None:
+            raise AnalysisError(f"{modname}.{fname} not found")
+        for t in own_nodes(f.node):
+            if not isinstance(t, ast.Try):
+                continue
+            for h in t.handlers:
+                n += 1
+                bad = None
+                for st in h.body:
+                    exprs = []
+                    if isinstance(st, ast.Assign):
+                        exprs = [st.value] + [x for tg in st.targets for x in ([tg.value, tg.slice] if isinstance(tg, ast.Subscript) else [])]
+                        if any(isinstance(tg, ast.Attribute) for tg in st.targets):
+                            exprs += [tg.value for tg in st.targets if isinstance(tg, ast.Attribute)]
+                    elif isinstance(st, ast.Return):
+                        exprs = [st.value] if st.value is not None else []
+                    elif isinstance(st, ast.Expr):
+                        exprs = [st.value]
+                    elif isinstance(st, (ast.Pass, ast.Continue, ast.Break)):
+                        exprs = []
+                    elif isinstance(st, ast.Raise):
+                        bad = st
+                        break
+                    else:
+                        bad = st
+                        break
+                    for e in exprs:
+                        if not _total_expr(e, ctx, h.name or "\0"):
+                            bad = e
+                            break
+                    if bad is not None:
+                        break
+                if bad is None:
+                    out.ok({"function": f.qual, "handler": short(h.type, 20) if h.type else "bare", "statements": len(h.body)})
+                else:
+                    out.bad(f"containing-handler-may-raise:{f.name}:{canon(norm(bad)[:50], function_locals(f.node))}", f"{f.qual}: the handler that contains a "
+                            f"failure evaluates `{short(bad, 70)}`, which can raise for some exceptions: the failure then escapes and the run is lost", where(f, bad))
+    if n < 5:
+        raise AnalysisError(f"only {n} containing handlers found")
+
+
 RULES = [
+    ("C10.f", "the containing exception handlers cannot raise", 5, rule_f),
     ("C10.e", "no while loop with an unchangeable condition", 40, rule_e),
     ("C10.a", "exception containment on the per-block path", 6, rule_a),
     ("C10.b", "constant folding cannot raise or diverge", 15, rule_b),
